@@ -81,8 +81,20 @@ func groups(dir string, maxN int) {
 				t = n
 			}
 			m := gen.NewMaterial(scID, n, t)
-			for mask := 0; mask < 32; mask++ {
+			// index layouts: 0..n-1 / a hole (the participant with index 1 did not qualify in the DKG: 0,2,3,..,n)
+			for mask := 0; mask < 32*2; mask++ {
 				o := gen.GroupOpts{ID: "default", Period: 30 * time.Second, Genesis: 1600000000}
+				layout := "contiguous"
+				switch mask / 32 {
+				case 1:
+					layout = "hole-at-1"
+					o.IndexOf = func(i int) uint32 {
+						if i >= 1 {
+							return uint32(i + 1)
+						}
+						return uint32(i)
+					}
+				}
 				if mask&1 != 0 {
 					o.Transition = 1600003000
 				}
@@ -96,7 +108,7 @@ func groups(dir string, maxN int) {
 				if mask&16 != 0 {
 					o.ID = "testnet-b"
 				}
-				tag := fmt.Sprintf("%s n=%d t=%d transition=%v pubkey=%v seed=%v catchup=%v id=%s", scID, n, t, mask&1 != 0, !o.NoPubKey, mask&4 != 0, mask&8 != 0, o.ID)
+				tag := fmt.Sprintf("%s n=%d t=%d transition=%v pubkey=%v seed=%v catchup=%v id=%s indices=%s", scID, n, t, mask&1 != 0, !o.NoPubKey, mask&4 != 0, mask&8 != 0, o.ID, layout)
 				g := m.Group(o)
 				distinct++
 				if nsamples < 2 {
